@@ -35,7 +35,7 @@ ASSUMPTIONS = [
     "well-formed = strict identification grammar, data characters exclude '/' and '!', checksum correct (upper-case hex) or absent, each readout < 7000 octets",
     "nothing is demanded about when within the call sequence a readout is returned",
 ]
-MUST_FIRE = {"quick": ["stream_over_8k", "never_in_hunt_mode_for_8k", "cut_between_cr_lf", "leading_tail", "bystander_reader_instance", "over_1000_readouts_in_one_call"], "thorough": ["stream_over_8k", "never_in_hunt_mode_for_8k", "cut_between_cr_lf", "leading_tail", "stream_over_100k"]}
+MUST_FIRE = {"quick": ["stream_over_8k", "never_in_hunt_mode_for_8k", "cut_between_cr_lf", "leading_tail", "bystander_reader_instance", "over_1000_readouts_in_one_call", "identical_readouts_back_to_back"], "thorough": ["stream_over_8k", "never_in_hunt_mode_for_8k", "cut_between_cr_lf", "leading_tail", "stream_over_100k"]}
 
 
 def gen(rng, tier, index):
@@ -62,6 +62,10 @@ def gen(rng, tier, index):
             s["lines"].insert(0, f"0-0:96.13.0({seq:08d})")
             specs.append(s)
     specs = [s for s in specs if p1_gen.well_formed(s)] or [p1_gen.readout_spec(rng, 0, "small")]
+    if mode != "many_tiny" and rng.random() < 0.12:
+        # an idle meter without a clock line repeats itself: the same readout, byte for byte, several times in a row
+        at = rng.randrange(len(specs))
+        specs[at : at + 1] = [copy.deepcopy(specs[at]) for _ in range(rng.choice([2, 2, 3, 5]))]
     tail = None
     if rng.random() < 0.3:
         t = p1_gen.readout_spec(rng, None)
@@ -181,6 +185,8 @@ def execute(sc):
         probes["bystander_reader_instance"] = 1
     if sc["cuts"].get("as"):
         probes["chunks_as_bytearray"] = 1
+    if any(a == b for a, b in zip(sent, sent[1:])):
+        probes["identical_readouts_back_to_back"] = 1
     probes[f"frag_{sc['cuts']['m']}"] = 1
     return {
         "violations": viol,
